@@ -539,6 +539,102 @@ class Extraction:
             j += 1
         return "".join(out)
 
+    def _expand_wildcards(self, entries):
+        """`select = "impl T *"`: every method of T's inherent impl blocks that is not cfg-gated, not excluded and
+        not listed explicitly elsewhere in the unit (so edits that start calling another accessor still resolve)"""
+        explicit = {(e.get("file"), e.get("select")) for e in entries if "select" in e}
+        out = []
+        for e in entries:
+            sel = e.get("select", "")
+            m = re.match(r"impl (.+) \*$", sel)
+            if not m:
+                out.append(e)
+                continue
+            owner = re.sub(r"\s+", " ", m.group(1).strip())
+            S = self.source(e["file"])
+            toks = S.toks
+            for i in S.depth_ranges(0, len(toks)):
+                if toks[i].kind == "ident" and toks[i].text == "impl":
+                    j = i + 1
+                    while not (toks[j].kind == "punct" and toks[j].text == "{"):
+                        if toks[j].kind == "punct" and toks[j].text in "([":
+                            j = S.br[j]
+                        j += 1
+                    if _norm_header(toks[i:j]) != owner:
+                        continue
+                    for k in S.depth_ranges(j + 1, S.br[j]):
+                        if toks[k].kind == "ident" and toks[k].text == "fn" and toks[k + 1].kind == "ident":
+                            name = toks[k + 1].text
+                            if name in e.get("exclude", []) or (e["file"], "fn %s::%s" % (owner, name)) in explicit:
+                                continue
+                            start = _item_start(S, k, j + 1)
+                            attrs = S.src[toks[start].start:toks[k].start]
+                            if "cfg(" in attrs:
+                                continue
+                            ne = {kk: vv for kk, vv in e.items() if kk not in ("select", "exclude")}
+                            ne["select"] = "fn %s::%s" % (owner, name)
+                            out.append(ne)
+        return out
+
+    def _std_glob_imports(self):
+        """R-use-top: names the source files import from std/core/alloc are imported here too (unless the
+        generated text already defines or imports a same-named item), so that an edit which starts using another
+        already-imported std name still resolves instead of making the unit undecided."""
+        leaves = []  # (path, name)
+        for S in self.sources.values():
+            toks = S.toks
+            for i in S.depth_ranges(0, len(toks)):
+                if toks[i].kind == "ident" and toks[i].text == "use" and (i == 0 or toks[i - 1].text in ";}]"):
+                    j = i + 1
+                    while toks[j].text != ";":
+                        j += 1
+                    if toks[i + 1].text not in ("std", "core", "alloc"):
+                        continue
+                    path, stack, alias = [], [], None
+                    k = i + 1
+
+                    def leaf():
+                        if len(path) > 1 and path[-1] not in ("self", "*"):
+                            leaves.append(("::".join(path), alias or path[-1]))
+                    while k < j:
+                        t = toks[k]
+                        if t.kind == "ident":
+                            if t.text == "as":
+                                alias = toks[k + 1].text
+                                k += 2
+                                continue
+                            path.append(t.text)
+                        elif t.text == "*":
+                            path.append("*")
+                        elif t.text == "{":
+                            stack.append(len(path))
+                        elif t.text in ",}":
+                            if not stack or len(path) > stack[-1]:
+                                leaf()
+                            alias = None
+                            if stack:
+                                path = path[:stack[-1]]
+                            if t.text == "}":
+                                stack.pop()
+                                path = path + ["}"]  # marker: group already emitted
+                        k += 1
+                    if path and path[-1] != "}":
+                        leaf()
+        text = "".join(c[0] for c in self.chunks)
+        out, seen = [], set()
+        for pth, name in leaves:
+            if name in seen:
+                continue
+            seen.add(name)
+            if re.search(r"\b(?:struct|enum|type|fn|trait|mod|const|union)\s+%s\b" % re.escape(name), text):
+                continue
+            if re.search(r"\buse\b[^;]*\b%s\b\s*(?:[,;}]|$)" % re.escape(name), text, re.M):
+                continue
+            out.append("#[allow(unused_imports)] use %s%s;\n" % (pth, (" as " + name) if not pth.endswith("::" + name) else ""))
+        if out:
+            self.count("R-use-top", "std imports carried over from the source files: " + " ".join(o.strip() for o in out), len(out))
+        return "".join(out)
+
     def _check_log_calls(self, S, a, b, fn):
         toks = S.toks
         for i in range(a, b):
@@ -739,6 +835,7 @@ class Extraction:
             self.chunks.append(("// ---- prelude %s (hand-written spec only)\n" % pre, None, None))
             self.chunks.append((open(p).read() + "\n", "PRELUDE:" + os.path.relpath(p, os.path.dirname(self.unit_dir)), 1))
         self.chunks.append(("// ---- extracted items\n", None, None))
+        self._auto_imports_at = len(self.chunks)
         tree = {}  # module path tuple -> list of chunk lists
 
         def emit(entry, chunk_list):
@@ -748,7 +845,7 @@ class Extraction:
             else:
                 self.chunks.extend(chunk_list)
 
-        for entry in self.spec.get("item", []):
+        for entry in self._expand_wildcards(self.spec.get("item", [])):
             if "raw" in entry:
                 emit(entry, [(entry["raw"].rstrip() + "\n", None, None)])
                 continue
@@ -784,6 +881,9 @@ class Extraction:
                 self.chunks.append(("pub mod %s {\n#[allow(unused_imports)] use super::*;\n" % c, None, None))
                 emit_tree(prefix + (c,))
                 self.chunks.append(("} // mod %s\n" % c, None, None))
+        imports = self._std_glob_imports()
+        if imports:
+            self.chunks.insert(self._auto_imports_at, (imports, None, None))
         if tree:
             self.chunks.append(("\n// ---- items of other crates / modules, under their real paths (R-pub)\n", None, None))
             emit_tree(())
